@@ -393,7 +393,16 @@ def run(ctx):
         "multi-line) x {yml, json, pkl} x {cycles off, on} x {same process, fresh thread, fresh process (sampled)} "
         "x a post-load history of 6-10 evaluate/set_value operations run on the original and on the loaded model; "
         "plus second-save byte identity, save-of-loaded content identity, survival of cycles/filename/extra_data; "
-        "distinct = distinct (workbook, format, cycles, place)")
+        "distinct = distinct (workbook, format, cycles, place). Correspondence with coq/Model/Persist.v (extracted): "
+        "every such case whose workbook is inside the model is replayed on the extracted model — the parsed saved "
+        "file (top-level key order, cell-map addresses in order, constants, code text, settings), the history on "
+        "the original, the history on the loaded model wherever it was loaded, the cache snapshot after from_file "
+        "and after every post-load operation of an extra in-process load, the settings of the loaded model and the "
+        "document written by a save of the loaded model are compared exactly (iterative cases: documents only); a "
+        "second stream saves models after evaluating a random subset of the cells in a random order (cell-map key "
+        "order differs from the sorted order; unsaved cells read as blank after the load) with histories inside the "
+        "saved cells; the extra_data cases compare the key order of a first and a second save of the same object "
+        "and the keys of the loaded extra_data")
     nwb = ctx.n(70, 800)
     nproc = 0
     batch = []          # correspondence cases (model = coq/Model/Persist.v)
